@@ -3,6 +3,30 @@ import json
 from vlib import *
 import schedengine as se
 
+
+def plog_pipeline(ck, eng, ntraces, proofs_ok):
+    """The persisted-log part of the reports in the DB -> scheduler pipeline (schedpipe.gen_plog_trace): the replica of a member stops being
+    reported while its NodeHost stays live (or comes back after a gap longer / shorter than the timeout) and the NodeHost's INCLUDED
+    persisted-log lists shrink (record removed / list empty / records of other replicas only / empty and back).  DB side: the NodeHost record's
+    persisted-log set = the most recent included list (monitor mon_plog_db, then the DB model); the contexts then run, per fleet in order,
+    on ONE scheduler object and are judged like every other context plus mon_restore_hist (restore targets vs the report history)."""
+    import dbengine, dbprops, schedpipe as sp
+    deng = dbengine.Engine(ck)
+    deng.binp = eng.bin
+    traces = [sp.gen_plog_trace(ck.rng, eng.ttl, eng.step) for _ in range(ntraces)]
+    if proofs_ok:
+        results, _ = dbprops.run_db_property(ck, deng, traces, [sp.mon_plog_db])
+    else:
+        _, results = sp.run_db(ck, eng.bin, traces, "c12plog")
+    if results is None:
+        return None
+    ctxs = sp.chain_contexts([dbprops.tuplify(t) for t in traces], results, ck.rng, "plog", eng.step)
+    nshrunk = sum(1 for t in traces if any(op[0] == "R" and op[1]["plog_incl"] and not op[1]["plog"] for op in t))
+    ck.cov["plog_pipeline"] = ("%d fleets (%d with an included EMPTY list after a non-empty one or from a NodeHost without records), %d rounds computed by the REAL DB and run "
+                               "in order on one scheduler object per fleet" % (len(traces), nshrunk, len(ctxs)))
+    return ctxs
+
+
 def run(ck):
     ck.cov["rule"] = ("one-shard contexts: every multiset of <=5 member kinds out of {healthy, healthy exactly ttl ago, waiting, never reported+never announced "
                       "(log present), failed x NodeHost {unknown, live+log, live no log, live+log of another replica / another shard, silent exactly ttl "
@@ -13,13 +37,17 @@ def run(ck):
                       "random 64 bit ids), with persisted-log entries CONGRUENT modulo the stride to the member living on that NodeHost. Sequences: "
                       "2..4 related rounds for one shard (restore / join CREATE, then member removed / added and version bumped, then restore again) and "
                       "the PRNG contexts in groups of 3 run on ONE long-lived scheduler object, as Drummer does; every round is judged by its own context. "
+                      "Persisted-log pipeline: fleets reporting every round through the REAL DB for more than a timeout; a member's replica stops being reported while "
+                      "its NodeHost never misses a report / returns after a gap > ttl / <= ttl; its INCLUDED persisted-log lists (every 1st..3rd report) keep the record, "
+                      "lose it, become empty, name other replicas only, or become empty and get the record back; DB side: NodeHost record's log set = most recent "
+                      "included list (monitor + DB model); scheduler side: the rounds of a fleet on one scheduler object, restore targets judged against the report history. "
                       "Non-trivial = the round produced a request, an error or a panic; distinct by md5 of the context line.")
     import time
     t0 = time.time()
-    proofs_ok = ck.proofs(["theories/SchedRun.vo"])
+    proofs_ok = ck.proofs(["theories/SchedRun.vo", "theories/DBRun.vo"])
     t1 = time.time()
     eng = se.Engine(ck)
-    if not eng.build():
+    if not eng.build(extra_files=["root/zz_verif_db_test.go"]):      # one binary: scheduler executor + db executor (DB -> scheduler pipeline)
         return
     ck.cov["timing"] = {"proofs_s": round(t1 - t0, 1), "go_build_s": round(time.time() - t1, 1)}
     quick = ck.tier == "quick"
@@ -45,10 +73,16 @@ def run(ck):
                 c["chain"] = 1
                 c["tag"] += "/chained"
         ctxs += rnd
+        pipe = plog_pipeline(ck, eng, 40 if quick else 1200, proofs_ok)
+        if pipe is None or ck.violations:
+            return
+        ctxs += pipe
     open_ids = {f["id"] for f in ck.open_findings()}
 
     def monitor(v, reqs, c):
-        return se.mon_c12(v, reqs, open_ids)
+        import schedpipe as sp
+        bad, known = se.mon_c12(v, reqs, open_ids)
+        return bad + sp.mon_restore_hist(v, reqs, c), known
     se.run_property(ck, eng, ctxs, monitor, proofs_ok,
                     {"C12-restore-below-quorum": "restore requests issued for an unavailable shard with a waiting-to-start member although healthy + restorable < quorum"})
     ck.cov["exhaustive"] = False
